@@ -39,6 +39,10 @@ def config_pool():
         "one-bin": dict(edges=e[[0, -1]], closed="right"),
         "one-bin-left": dict(edges=e[[0, -1]], closed="left"),
         "E-right-other-scales": dict(edges=e, closed="right", scales=([0.05], [0.5])),
+        # physical scales: the angle (and with it the pruning of distant patch pairs) depends on the centre of the
+        # lowest bin, not on zmin: same limits and scales, other first bin
+        "Mpc-E": dict(edges=e, closed="right", scales=([1.0], [14.0]), unit="Mpc"),
+        "Mpc-E-subset": dict(edges=e[::2], closed="right", scales=([1.0], [14.0]), unit="Mpc"),
     }
     return pool
 
@@ -57,7 +61,7 @@ def make_config(name):
 
     c = POOL[name]
     rmin, rmax = c.get("scales", ([0.02, 0.1], [0.3, 1.0]))
-    return Configuration.create(rmin=rmin, rmax=rmax, unit="deg", edges=c["edges"].tolist(), closed=c["closed"])
+    return Configuration.create(rmin=rmin, rmax=rmax, unit=c.get("unit", "deg"), edges=c["edges"].tolist(), closed=c["closed"])
 
 
 def corrfunc_bytes(cfs):
@@ -116,6 +120,13 @@ class C07(Check):
         for a, b in (("E-right", "E-left"), ("E-left", "E-right"), ("one-bin", "one-bin-left"), ("one-bin-left", "one-bin")):
             for op in ("cross", "auto", "build"):
                 strat.append(dict(kind="closed-pairs", ops=[[op, a] if op != "build" else ["build", "ref", a, False]], final=b))
+        # compact patches with gaps between them: which patch pairs are visited depends on the angular scale
+        for a, b in (("Mpc-E-subset", "Mpc-E"), ("Mpc-E", "Mpc-E-subset"), ("E-right-other-scales", "Mpc-E"), ("Mpc-E-subset", "E-right")):
+            for op in ("cross", "auto"):
+                strat.append(dict(kind="gapped-footprint", ops=[[op, a]], final=b, gapped=True))
+        for a in CORE6[:4]:
+            for cat_ in ("ref", "unk"):
+                strat.append(dict(kind="rejected-call", ops=[["cross", a], ["build_fail", cat_, CORE6[(CORE6.index(a) + 1) % 6]], ["swap", a]], final=a))
         # mixed caches: measure with A, rebuild ONE patch of a binned catalog for B, measure with A or B
         mixed = [(a, b, cat, pid) for a in CORE6 for b in CORE6 if a != b for cat in ("ref", "rr") for pid in (0, 1, 2)]
         if q:
@@ -129,8 +140,8 @@ class C07(Check):
             length = int(rng.integers(1, 7))
             ops = []
             for _ in range(length):
-                k = rng.choice(["cross", "auto", "build", "build_none", "reopen", "swap", "hist", "build_patch"],
-                               p=[0.25, 0.12, 0.14, 0.07, 0.18, 0.08, 0.05, 0.11])
+                k = rng.choice(["cross", "auto", "build", "build_none", "reopen", "swap", "hist", "build_patch", "build_fail"],
+                               p=[0.23, 0.11, 0.13, 0.07, 0.16, 0.08, 0.05, 0.10, 0.07])
                 if k in ("cross", "auto", "swap", "hist"):
                     ops.append([str(k), str(rng.choice(NAMES))])
                 elif k == "build":
@@ -140,6 +151,10 @@ class C07(Check):
                     # catalog hold trees of different binnings afterwards
                     ops.append(["build_patch", str(rng.choice(["ref", "unk", "rr", "ur"])), int(rng.integers(0, 3)),
                                 str(rng.choice(NAMES + ["none"])), bool(rng.random() < 0.3)])
+                elif k == "build_fail":
+                    # a request the library rejects while it is at work (caught by the caller): it must not leave
+                    # the cache in a state that later requests trust
+                    ops.append(["build_fail", str(rng.choice(["ref", "unk", "rr", "ur"])), str(rng.choice(NAMES))])
                 elif k == "build_none":
                     ops.append(["build_none", str(rng.choice(["ref", "unk", "rr", "ur"])), bool(rng.random() < 0.3)])
                 else:
@@ -161,7 +176,10 @@ class C07(Check):
 
         P = 3
         r = np.deg2rad(0.7)
-        centres = cats.layout_centres(rng, P, r * 1.5)
+        spacing = r * 1.5
+        if case.get("gapped") or (case["kind"] == "sampled" and case_bits(case, "gapped") % 4 == 0):
+            r = np.deg2rad(0.25)  # same spacing, compact patches
+        centres = cats.layout_centres(rng, P, spacing)
         cobj = cats.coords_obj(centres)
         vals = all_edge_values()
 
@@ -176,7 +194,11 @@ class C07(Check):
             return cats.table(ra, dec, z=z, w=rng.uniform(0.5, 2.0, n))
 
         tabs = dict(ref=table(25), unk=table(30), rr=table(35), ur=table(35))
-        n_edge = int(sum(np.isin(t["z"], vals).sum() for t in tabs.values()))
+        noz = case_bits(case, "unknown-without-redshifts") % 3 == 0
+        if noz:  # the unknown sample and its randoms carry no redshifts: binned requests on them are rejected (ValueError)
+            for k_ in ("unk", "ur"):
+                tabs[k_] = {kk: vv for kk, vv in tabs[k_].items() if kk != "z"}
+        n_edge = int(sum(np.isin(t["z"], vals).sum() for t in tabs.values() if "z" in t))
 
         def final_measure(c, name):
             cfg = make_config(name)
@@ -227,13 +249,29 @@ class C07(Check):
                         last_binned = op[1]
                     elif kind == "swap":
                         cfg = make_config(op[1])
-                        yaw.crosscorrelate(cfg, hist["unk"], hist["ref"], ref_rand=hist["ur"], unk_rand=hist["rr"], max_workers=1)
-                        last_binned = f"unbinned-after-{op[1]}"
+                        try:
+                            yaw.crosscorrelate(cfg, hist["unk"], hist["ref"], ref_rand=hist["ur"], unk_rand=hist["rr"], max_workers=1)
+                            last_binned = f"unbinned-after-{op[1]}"
+                        except ValueError:
+                            if not noz:
+                                raise
+                            last_binned = f"rejected-swap-{op[1]}"  # documented refusal: no redshifts in the new reference
+                    elif kind == "build_fail":
+                        c = POOL[op[2]]
+                        try:
+                            # leafsize=0 is refused by the tree constructor after the build has started
+                            hist[op[1]].build_trees(c["edges"], closed=c["closed"], leafsize=0, max_workers=1)
+                        except Exception:
+                            last_binned = f"rejected-build-{op[2]}"
                     elif kind == "hist":
                         HistData.from_catalog(hist["ref"], make_config(op[1]), max_workers=1)
                     elif kind == "build":
                         c = POOL[op[2]]
-                        hist[op[1]].build_trees(c["edges"], closed=c["closed"], force=op[3], max_workers=nw)
+                        try:
+                            hist[op[1]].build_trees(c["edges"], closed=c["closed"], force=op[3], max_workers=nw)
+                        except ValueError:
+                            if not (noz and op[1] in ("unk", "ur")):
+                                raise
                         if op[1] in ("ref", "rr"):
                             last_binned = op[2]
                     elif kind == "build_patch":
@@ -241,8 +279,12 @@ class C07(Check):
                         from yaw.catalog.trees import BinnedTrees
 
                         binning = None if op[3] == "none" else Binning(POOL[op[3]]["edges"], closed=POOL[op[3]]["closed"])
-                        BinnedTrees.build(hist[op[1]][op[2]], binning, force=op[4])
-                        last_binned = f"patch{op[2]}-of-{op[1]}:{op[3]}"
+                        try:
+                            BinnedTrees.build(hist[op[1]][op[2]], binning, force=op[4])
+                            last_binned = f"patch{op[2]}-of-{op[1]}:{op[3]}"
+                        except ValueError:
+                            if not (noz and op[1] in ("unk", "ur") and binning is not None):
+                                raise
                     elif kind == "build_none":
                         hist[op[1]].build_trees(None, force=op[2], max_workers=1)
                         if op[1] in ("ref", "rr"):
